@@ -140,7 +140,8 @@ def long_cases(tier):
     ]
     for name, lx, role in lexemes:
         aligns = range(0, len(lx) + 1) if tier == "thorough" else sorted(set([0, 1, len(lx) // 2, len(lx) - 1, len(lx)]))
-        for boundary in ((1023,) if tier != "thorough" else (1023, 2046)):
+        # 1023 is the reader's chunk; larger multiples make sure no other limit exists on the way (a line is gathered whole)
+        for boundary in ((1023, 64 * 1023) if tier != "thorough" else (1023, 2046, 16 * 1023, 64 * 1023, 65 * 1023, 128 * 1023)):
             for k in aligns:
                 # tokens before the lexeme, the lexeme, tokens after
                 if role == "int":
@@ -165,8 +166,11 @@ def long_cases(tier):
                 line = " ".join(toks)
                 # grow with filler until the lexeme would start beyond the target, then pad with spaces
                 target = boundary - k - inner          # offset where tail[0] must start
-                while len(line) + 1 + len(" ".join(filler)) + 1 <= target - 1:
+                while boundary < 4000 and len(line) + 1 + len(" ".join(filler)) + 1 <= target - 1:
                     toks += filler
+                    line = " ".join(toks)
+                if boundary >= 4000:
+                    toks += filler        # one filler pair, then blanks up to the boundary
                     line = " ".join(toks)
                 pad = target - len(line)
                 if pad < 1:
